@@ -84,7 +84,8 @@ PLANTS = {
     "in_compare": ["if x in (0, 1, 4):", "    x = x + 1"],
     "not_in_compare": ["if x not in (0, 1, 4):", "    x = x + 1"],
     "matmul": ["x = x @ 2"],
-    "star_unpack": ["t = (1, 2, x)", "f, *r = t", "x = f + x"],
+    "star_unpack": ["t = (1, 2, x)", "f, *r = t", "x = f + x", "result(\"r\", r)"],
+    "star_unpack_mid": ["t = (1, 2, x, 4)", "f, *r, l = t", "x = f + x + l + len(r)"],
     "string_concat": ["m = \"a\" + \"b\"", "x = x + 1"],
     "complex_const": ["z = 1j", "x = x + 1"],
     "ann_without_value": ["y: int", "y = x + 2", "x = y"],
